@@ -49,6 +49,16 @@ PROPS = {
         "exhaustive": {"quick": False, "thorough": False},
         "assumptions": COMMON_ASSUME,
     },
+    "C13": {
+        "rule": "cases = (constructor, operation sequence) on the generic table: all sequences of length <= 2 (thorough: <= 3 for two "
+                "initial lengths) over an alphabet of ~48 parameterised operations (typed/slice appends incl. empty, sink pushes, typed and "
+                "slice writes at offsets 0,4,8,9,10,35,36,end-8..end+1, far out of range, usize::MAX) for initial lengths 36,37,40,255,"
+                "256,300, plus random sequences of 1..200 operations; observation after every operation for short sequences; "
+                "refused writes are caught and the same table is used again; distinct = distinct case text",
+        "exhaustive": {"quick": False, "thorough": False},
+        "exhaustive_note": "sequences of length <= 2 over the operation alphabet are enumerated exhaustively (bounded-exhaustive)",
+        "assumptions": COMMON_ASSUME + ["tables below 2^62 bytes; offsets are usize (< 2^64)"],
+    },
     "C15": {
         "rule": "cases = pairs (construction A, construction B): Scope::new vs Scope::raw with body sizes 0..4200 exhaustively "
                 "(thorough: 2^20 +- 16) and random child lists; Package vs PackageBuilder with 0..255 elements; &str vs String; "
